@@ -36,12 +36,14 @@ def make_ty(cls, atoms):
         return mods["zx"].PRO(len(atoms))
     if cls == "cartesian":
         return mods["cartesian"].PRO(len(atoms))
+    if cls == "pro":          # rigid diagrams over the self-dual type PRO(1): x.l == x.r == x
+        return mods["rigid"].PRO(len(atoms))
     raise HarnessError("unknown class " + cls)
 
 
 def make_box(cls, b):
     mods = _mods()
-    mod = mods[cls]
+    mod = mods["rigid" if cls == "pro" else cls]
     dom, cod = make_ty(cls, b["dom"]), make_ty(cls, b["cod"])
     kind = b.get("kind", "box")
     if kind == "cup":
@@ -86,7 +88,8 @@ def diagram_class(cls):
     mods = _mods()
     return {"monoidal": mods["monoidal"].Diagram, "rigid": mods["rigid"].Diagram,
             "tensor": mods["tensor"].Diagram, "circuit": mods["circuit"].Circuit,
-            "zx": mods["zx"].Diagram, "cartesian": mods["cartesian"].Diagram}[cls]
+            "zx": mods["zx"].Diagram, "cartesian": mods["cartesian"].Diagram,
+            "pro": mods["rigid"].Diagram}[cls]
 
 
 def build(spec):
@@ -207,11 +210,21 @@ def gen_monoidal(rng, nboxes, cls="monoidal", atoms=("x", "y"), maxw=6,
 
 
 def gen_rigid(rng, nsteps, atoms=("a", "b"), maxw=6, zs=(0, 0, 0, 1, -1, 2, -2, 3, -3),
-              p_template=0.5, p_connected=0.5):
+              p_template=0.5, p_connected=0.5, selfdual=False):
     """Random rigid spec mixing boxes, caps and cups of both orientations,
     with snake templates (cap, obstructions on either side, cup)."""
+    if selfdual:
+        atoms, zs = ("1",), (0,)
+
     def ob():
         return [rng.choice(atoms), rng.choice(zs)]
+
+    def adj(o, dz=None):
+        """an adjoint of atom o (itself for self-dual types)"""
+        return list(o) if selfdual else [o[0], o[1] + (dz if dz is not None else rng.choice([1, -1]))]
+
+    def adjoint_ok(a, b):
+        return list(a) == list(b) if selfdual else M.adjoint_ok(a, b)
     cur = [ob() for _ in range(rng.randint(0, 3))]
     dom = [list(a) for a in cur]
     boxes, offsets, nb = [], [], [0]
@@ -245,7 +258,7 @@ def gen_rigid(rng, nsteps, atoms=("a", "b"), maxw=6, zs=(0, 0, 0, 1, -1, 2, -2, 
             pair = [list(a) for a in rng.choice(caps_made)]      # the same cap again
         else:
             o = o or ob()
-            pair = [o, [o[0], o[1] + rng.choice([1, -1])]]
+            pair = [o, adj(o)]
         caps_made.append(pair)
         add({"name": "Cap", "dom": [], "cod": pair, "kind": "cap", "dagger": False}, off)
 
@@ -254,7 +267,7 @@ def gen_rigid(rng, nsteps, atoms=("a", "b"), maxw=6, zs=(0, 0, 0, 1, -1, 2, -2, 
              "kind": "cup", "dagger": False}, off)
 
     def cup_candidates():
-        return [i for i in range(len(cur) - 1) if M.adjoint_ok(cur[i], cur[i + 1])]
+        return [i for i in range(len(cur) - 1) if adjoint_ok(cur[i], cur[i + 1])]
 
     def snake_template():
         """wire w at position p; cap next to it; obstructions; cup."""
@@ -268,13 +281,13 @@ def gen_rigid(rng, nsteps, atoms=("a", "b"), maxw=6, zs=(0, 0, 0, 1, -1, 2, -2, 
         valid = rng.random() < 0.8
         if left_snake:
             # Id(w) @ Cap(a, b) with a adjoint of w; outer leg b
-            a = [w[0], w[1] + rng.choice([1, -1])]
-            b = list(w) if valid else [w[0], a[1] + (a[1] - w[1])]
+            a = adj(w)
+            b = list(w) if valid or selfdual else [w[0], a[1] + (a[1] - w[1])]
             add({"name": "Cap", "dom": [], "cod": [a, b], "kind": "cap", "dagger": False}, p + 1)
             mid = p + 1       # position of the wire that will enter the cup (leg a), cup at p
         else:
-            b = [w[0], w[1] + rng.choice([1, -1])]
-            a = list(w) if valid else [w[0], b[1] + (b[1] - w[1])]
+            b = adj(w)
+            a = list(w) if valid or selfdual else [w[0], b[1] + (b[1] - w[1])]
             add({"name": "Cap", "dom": [], "cod": [a, b], "kind": "cap", "dagger": False}, p)
             mid = p + 1       # leg b at p+1, outer wire w now at p+2, cup at p+1
         # obstructions: boxes strictly left of the cup pair or strictly right of it
@@ -288,7 +301,7 @@ def gen_rigid(rng, nsteps, atoms=("a", "b"), maxw=6, zs=(0, 0, 0, 1, -1, 2, -2, 
                 cup_off += delta
             else:
                 add_box(cup_off + 2, len(cur))
-        if cup_off + 1 < len(cur) and M.adjoint_ok(cur[cup_off], cur[cup_off + 1]):
+        if cup_off + 1 < len(cur) and adjoint_ok(cur[cup_off], cur[cup_off + 1]):
             cup_at(cup_off)
         return True
 
@@ -318,7 +331,8 @@ def gen_rigid(rng, nsteps, atoms=("a", "b"), maxw=6, zs=(0, 0, 0, 1, -1, 2, -2, 
                          "dagger": False})
         offsets.insert(0, len(dom))
         share = share or rng.random() < 0.5
-    return {"cls": "rigid", "dom": dom, "boxes": boxes, "offsets": offsets, "share": share}
+    return {"cls": "pro" if selfdual else "rigid", "dom": dom, "boxes": boxes, "offsets": offsets,
+            "share": share}
 
 
 def spec_of(real, cls):
